@@ -145,7 +145,12 @@ def gen_source():
     sys.path.insert(0, os.path.join(VERIF, "tools"))
     import gen_source as _gs
     import gen_fns as _gf
+    import gen_builders as _gb
     with Lock("lake"):
+        try:
+            _gb.main(os.path.join(LEAN, "Mb2", "Gen", "Builders.lean"))
+        except Exception:
+            pass
         rep = _gs.main(os.path.join(LEAN, "Mb2", "Gen", "Source.lean"))
         try:
             frep = _gf.main(os.path.join(LEAN, "Mb2", "Gen", "Fns.lean"))
